@@ -62,13 +62,18 @@ def totality(rep, f, rule, entry_idents, label, min_sites=0):
     bodies = reachable(f, entries)
     n_sites = 0; n_fn = 0; by_status = {}
     seen_keys = set()
+    bodies = sorted(bodies, key=lambda b: b.kind == "Closure")      # closures last
+    read_in_context = set()
     for b in bodies:
         private = (not b.reachable) and b.trait is None and b.kind != "Closure"
         if private:
             continue      # analysed in the context of its callers (inlined)
+        if b.kind == "Closure" and b.ident() in read_in_context:
+            continue      # read where it is applied (directly, or through core's combinators) during the analyses above
         n_fn += 1
         try:
             sites, tree = panics.analyse(f, b)
+            read_in_context |= panics.analyse.last_covered
         except vg.Unsupported as u:
             rep.fail(rule, b.ident(), "unanalysable:" + b.ident(), "cannot analyse %s for panic sites: %s" % (b.ident(), u), where=H.where(b))
             continue
@@ -107,6 +112,12 @@ def entries_C14():
 def entries_C15():
     return ["TwoFloat::ln", "TwoFloat::log", "TwoFloat::log2", "TwoFloat::log10", "TwoFloat::ln_1p"]
 
+def entries_C16():
+    return ["TwoFloat::" + n for n in ("sin", "cos", "sin_cos", "tan")]
+
+def entries_C17():
+    return ["TwoFloat::" + n for n in ("asin", "acos", "atan", "atan2")]
+
 def entries_C18():
     return ["TwoFloat::" + n for n in ("cosh", "sinh", "tanh", "acosh", "asinh", "atanh")]
 
@@ -118,3 +129,21 @@ def entries_C09(f):
         if b.trait in ("num_traits::FromPrimitive", "num_traits::ToPrimitive", "num_traits::NumCast") and b.kind != "Closure":
             out.append(b.ident())
     return sorted(set(out))
+
+
+OWN_TOTALITY = {"C09", "C13", "C14", "C15", "C16", "C17", "C18"}
+
+def assumed_assertions(ctx, rep, covered, prop):
+    """RD: the form rules read a function as if its debug_assert!s hold; when the bodies a property evaluated contain such
+    assertions (none in the crate today), every one of them has to be discharged by the panic-site analysis, entered from the
+    public functions among those bodies"""
+    if prop in OWN_TOTALITY:
+        return
+    f = ctx.facts("A")
+    def has_dbg(b):
+        return any(blk["t"].get("dbg") for mir in [b.mir] + list(b.promoted) for blk in mir["blocks"])
+    cov = [b for b in f.live if b.ident() in covered]
+    if not any(has_dbg(b) for b in cov):
+        return
+    entries = sorted({b.ident() for b in cov if b.kind != "Closure" and (b.reachable or b.trait is not None) and f.get(b.ident()) is not None})
+    totality(rep, f, "RD", entries[:60], "functions with debug assertions", min_sites=0)
